@@ -118,7 +118,34 @@ Record plan := mkPlan {
   pl_copy : list RegionDefs.rect        (* updateCopyRegion, in the order rfbSendCopyRegion walks it *)
 }.
 
+(* 0013b67 (F22): after the cursor redraw,  tmp = updateRegion - requested;  if non-empty:
+   modifiedRegion |= tmp (bookkeeping, C02) and updateRegion &= requested *)
+Definition clip_to_requested (upd req : region) : region :=
+  if snd (rgn_sub upd req) then fst (rgn_and upd req) else upd.
+
 Definition plan_regions (c1 : caps) (s : sends) (sn : snap) : plan :=
+  (* sraRgnSubtract(cl->copyRegion, cl->modifiedRegion) *)
+  let copy1 := fst (rgn_sub (sn_copy sn) (sn_mod sn)) in
+  let upd0 := rgn_or (sn_mod sn) copy1 in
+  let '(upd1, ne) := rgn_and upd0 (sn_req sn) in
+  let same_cursor := (sn_clx sn =? sn_scx sn) && (sn_cly sn =? sn_scy sn) in
+  let nothing := negb ne && rgn_is_empty upd1 && (c_cursorshape c1 || same_cursor) && negb (any_send s) in
+  let ucopy0 := fst (rgn_and copy1 (sn_req sn)) in
+  let ucopy := fst (rgn_and ucopy0 (rgn_offset (sn_req sn) (sn_dx sn) (sn_dy sn))) in
+  let upd2 := fst (rgn_sub upd1 ucopy) in
+  let upd3 :=
+    if c_cursorshape c1 then upd2
+    else if same_cursor then upd2
+    else redraw_cursor (sn_cursor sn) (sn_scx sn) (sn_scy sn) (sn_fbw sn) (sn_fbh sn)
+           (redraw_cursor (sn_cursor sn) (sn_clx sn) (sn_cly sn) (sn_fbw sn) (sn_fbh sn) upd2) in
+  (* the clip sits inside "if (!cl->enableCursorShapeUpdates)" *)
+  let upd4 := if c_cursorshape c1 then upd3 else clip_to_requested upd3 (sn_req sn) in
+  mkPlan nothing (map to_xywh (rgn_iter false false upd4))
+         (rgn_iter (sn_dx sn >? 0) (sn_dy sn >? 0) ucopy).
+
+(* the flow BEFORE 0013b67 (the cursor-redraw area was sent even outside requestedRegion: F22); kept executable:
+   props/C03.py reads from the source text which flow the library has, so a revert is followed and reported *)
+Definition plan_regions_old (c1 : caps) (s : sends) (sn : snap) : plan :=
   (* sraRgnSubtract(cl->copyRegion, cl->modifiedRegion) *)
   let copy1 := fst (rgn_sub (sn_copy sn) (sn_mod sn)) in
   let upd0 := rgn_or (sn_mod sn) copy1 in
@@ -187,6 +214,18 @@ Definition model_update_core (g : cfg) (c : caps) (sn : snap) : caps * upd_out :
 
 Definition model_update (g : cfg) (c : caps) (sn : snap) : caps * upd_out :=
   model_update_core g (bpp24_prelude g c sn) sn.
+
+Definition model_update_old (g : cfg) (c : caps) (sn : snap) : caps * upd_out :=
+  let c0 := bpp24_prelude g c sn in
+  if c_newfbsize c0 && c_fbpending c0 then newfb_update c0 sn
+  else
+    let sc := decide_sends g c0 (sn_ledval sn) in
+    let pl := plan_regions_old (snd sc) (fst sc) sn in
+    if pl_nothing pl then (snd sc, UNone) else render_update g (snd sc) (fst sc) sn pl.
+
+(* what the driver runs: clip = the source has 0013b67 *)
+Definition model_update_sel (clip : bool) (g : cfg) (c : caps) (sn : snap) : caps * upd_out :=
+  if clip then model_update g c sn else model_update_old g c sn.
 
 (* number of headers the model predicts when nothing is data dependent *)
 Fixpoint phdr_count (l : list phdr) : option Z :=
